@@ -145,16 +145,17 @@ func bobRec(pf *mta.ProofBobWC) map[string]string {
 type pair struct{ a, b *pset } // a: owner of the Paillier key, b: owner of the ring-Pedersen parameters
 
 func (e *env) pairs() []pair {
+	// all ordered pairs, including (i,i): in the protocol Bob's proofs are verified against Alice's Paillier key AND
+	// Alice's ring-Pedersen parameters (same owner), Alice's range proof against her key and Bob's parameters.
 	var out []pair
 	for _, a := range e.ps {
 		for _, b := range e.ps {
-			if a.idx != b.idx {
-				out = append(out, pair{a, b})
-			}
+			out = append(out, pair{a, b})
 		}
 	}
 	if e.quick {
-		return []pair{out[0], out[len(out)-1]} // (0,1) and (4,3)
+		n := len(e.ps)
+		return []pair{out[1], out[len(out)-2], out[2*n+2]} // (0,1), (4,3), (2,2)
 	}
 	return out
 }
